@@ -194,10 +194,17 @@ func cmdCheck(argv []string) int {
 	}
 	known := loadKnown()
 	workDir := filepath.Join(verifRoot(), "work", id)
+	if v := os.Getenv("VERIF_REPO"); v != "" {
+		// experiments on scratch copies may run next to each other and next to a registered run
+		workDir = filepath.Join(verifRoot(), "work", "exp-"+strings.NewReplacer("/", "_").Replace(v)+"-"+id)
+	}
 	os.RemoveAll(workDir)
 	os.MkdirAll(workDir, 0o755)
 	defer os.RemoveAll(workDir)
 	replayDir := filepath.Join(verifRoot(), "replays", id)
+	if v := os.Getenv("VERIF_REPO"); v != "" {
+		replayDir = filepath.Join(verifRoot(), "work", "replays-exp"+strings.NewReplacer("/", "_").Replace(v), id)
+	}
 	os.RemoveAll(replayDir)
 	os.MkdirAll(replayDir, 0o755)
 
